@@ -47,6 +47,10 @@ func DrawConfig(t *rapid.T, label string, big bool) Config {
 	case "get":
 		c.N = pick(getSizes, getBig, 0, 300)
 	}
+	if UsesDefault(c) {
+		// the application may have changed the documented default buffer size
+		c.Default = rapid.SampledFrom([]int{0, 0, 7, 64, 131, 132, 1000, 16384}).Draw(t, label+".default")
+	}
 	// second life: the writer was used before, typically on the other side
 	switch rapid.IntRange(0, 3).Draw(t, label+".reuse") {
 	case 2:
